@@ -89,7 +89,7 @@ fn backward_nest(&self, ogradient: &Vec<Vec<Vec<f32>>>, max: &Vec<Vec<Vec<Vec<(u
                     (if __ix1 == 0 { r2(g, c as int, h as int, w as int, y, x, r1(g, c as int, h as int, y, x, 0.0f32)) }
                      else { r2(g, c as int, h as int, w as int + 1, y, x, r1(g, c as int, h as int, y, x, 0.0f32)) }), //@ob routing.inv
     //@end
-    //@before /igradient\[c\]\[\*mh\]\[\*mw\] = igradient\[c\]\[\*mh\]\[\*mw\] \+/
+    //@before /igradient\[c\]\[\*mh\]\[\*mw\] = /
                         broadcast use {f32_total};
                         proof { f32_obeys(); }
     //@end
